@@ -102,3 +102,9 @@ CHECKS["C12"] = (
     "random collections of 1..6 single-transcript genes (coding with start frames 0/1/2, five non-coding biotypes, multi-exon, both strands, feature collections) x 2 flavours x update_translations x 3 parser modes, plus a single-gene grid; one defect repaired (writer omitted /codon_start)",
     "DESIGN.md 5/C12",
 )
+
+CHECKS["C09"] = (
+    "runtime monitoring: brute-force integer membership model and posmodel/seqmodel sequence oracle evaluated on every result of query_by_position (all 8 flag combinations, bin shortcut on and off) and of the five id / guid queries of real AnnotationCollections, first and second generation (queries on query results), with refusal monitor for invalid ranges",
+    "seeded random collections (genes, feature collections, variant collections; chromosome / chunk / no parent; explicit and inferred bounds) over genomes <= 500 bp and sequence-less collections in bands around k*2^17; ranges at member end points +-1, 1-bp ranges, bounds, start 0; all subsets of <= 4 identifiers; one recorded finding (K42), two repaired (F20, F32); pure-Python query path only (cgranges absent)",
+    "DESIGN.md 5/C09",
+)
